@@ -189,6 +189,9 @@ pub fn func(f: Func, a: &[C]) -> RC {
     match f {
         Sqrt if off_negative_axis(z) => rel9(csqrt(z)),
         Exp if small => rel9(cexp(z)),
+        // a large phase: e^(x+iy) = e^x (cos y, sin y) with the C library's sin and cos, which reduce
+        // their argument exactly - the operand is known exactly here, so the value is well defined
+        Exp if z.0.abs() <= 30.0 && z.1.abs() <= 1e15 => rel9(cexp(z)),
         Exp2 if small => rel9(cexp((z.0 * std::f64::consts::LN_2, z.1 * std::f64::consts::LN_2))),
         Ln if off_negative_axis(z) => rel9(cln(z)),
         Lb if off_negative_axis(z) => {
@@ -208,6 +211,9 @@ pub fn func(f: Func, a: &[C]) -> RC {
         Root if cabs(a[0]) >= 1e-3 => pow_ref(a[1], cdiv(ONE, a[0])),
         Sin if small => rel9(csin(z)),
         Cos if small => rel9(ccos(z)),
+        // many periods from the origin along the real axis (same argument as for exp)
+        Sin if z.1.abs() <= 30.0 && z.0.abs() <= 1e15 && cabs(csin(z)) >= 1e-3 => rel9(csin(z)),
+        Cos if z.1.abs() <= 30.0 && z.0.abs() <= 1e15 && cabs(ccos(z)) >= 1e-3 => rel9(ccos(z)),
         // far from the real axis tan is +-i to far better than the tolerance (and cos, sin overflow long before)
         Tan if z.0.abs() <= 30.0 && z.1.abs() > 20.0 && z.1.abs() <= 1000.0 => rel9((0.0, z.1.signum())),
         Tanh if z.1.abs() <= 30.0 && z.0.abs() > 20.0 && z.0.abs() <= 1000.0 => rel9((z.0.signum(), 0.0)),
@@ -220,6 +226,8 @@ pub fn func(f: Func, a: &[C]) -> RC {
         }
         Sinh if small => rel9(csinh(z)),
         Cosh if small => rel9(ccosh(z)),
+        Sinh if z.0.abs() <= 30.0 && z.1.abs() <= 1e15 && cabs(csinh(z)) >= 1e-3 => rel9(csinh(z)),
+        Cosh if z.0.abs() <= 30.0 && z.1.abs() <= 1e15 && cabs(ccosh(z)) >= 1e-3 => rel9(ccosh(z)),
         Tanh if small => {
             let c = ccosh(z);
             if cabs(c) < 1e-3 {
